@@ -45,15 +45,75 @@ func findCheck(id string) *Check {
 	return nil
 }
 
+func mergeItems(lists ...[]Item) []Item {
+	var out []Item
+	for _, l := range lists {
+		out = append(out, l...)
+	}
+	return out
+}
+
+// withP returns copies of items with extra params set.
+func withP(its []Item, extra map[string]int64) []Item {
+	var out []Item
+	for _, it := range its {
+		p := map[string]int64{}
+		for k, v := range it.P {
+			p[k] = v
+		}
+		for k, v := range extra {
+			p[k] = v
+		}
+		out = append(out, Item{P: p, S: it.S})
+	}
+	return out
+}
+
+func shapeTier(qlo, qhi int, qd int64, tlo, thi int, td int64, t4 int64, extra map[string]int64) func(string) []Item {
+	return func(tier string) []Item {
+		if tier == "thorough" {
+			its := rankItems(tlo, thi, td, extra)
+			if t4 > 0 {
+				its = append(its, rankItems(thi+1, thi+1, t4, extra)...)
+			}
+			return its
+		}
+		return rankItems(qlo, qhi, qd, extra)
+	}
+}
+
 func init() {
+	h := func(name, what string, reach []string, items func(string) []Item) Harness {
+		return Harness{Name: "C06_" + name, Pkg: "zzh", Func: "H_C06_" + name, Reach: reach, What: what, Items: items}
+	}
+	acc := []string{"accepted"}
 	allChecks = append(allChecks, &Check{
 		ID: "C06", Level: "model_checking",
 		Harnesses: []Harness{
-			{Name: "C06_slice", Pkg: "zzh", Func: "H_C06_slice", Reach: []string{"accepted", "rejected"},
-				What: "Slice vs index-map reference; shape, index length and every From/To are solver integers",
-				Items: tiered(func() []Item { return rankItems(0, 2, 3, nil) }, func() []Item { return append(rankItems(0, 3, 3, nil), rankItems(4, 4, 2, nil)...) })},
+			h("slice", "Slice vs index-map reference; shape, index length and every From/To are solver integers (assumed valid)", acc, shapeTier(0, 2, 3, 0, 3, 3, 2, nil)),
+			h("at", "At(every valid multi-index) returns the addressed element; NElems = product of Shape", acc, shapeTier(0, 2, 3, 0, 3, 3, 2, nil)),
+			h("patch", "Patch: every source size/position incl. omitted and {0,0} ranges; target/source unchanged; slice-after-patch round trip", acc, shapeTier(0, 2, 3, 0, 3, 3, 0, nil)),
+			h("concat", "Concat of 2..3 operands along every dim; slice-after-concat round trip", acc, func(tier string) []Item {
+				if tier == "thorough" {
+					return mergeItems(withP(rankItems(1, 3, 3, nil), map[string]int64{"operands": 2}), withP(rankItems(1, 3, 2, nil), map[string]int64{"operands": 3}), withP(rankItems(4, 4, 2, nil), map[string]int64{"operands": 2}))
+				}
+				return mergeItems(withP(rankItems(1, 2, 3, nil), map[string]int64{"operands": 2}), withP(rankItems(1, 2, 2, nil), map[string]int64{"operands": 3}))
+			}),
+			h("reshape", "Reshape to every factorisation of the element count (target rank 0..maxrank2)", acc, shapeTier(0, 2, 3, 0, 3, 3, 2, map[string]int64{"maxrank2": 4})),
+			h("flatten", "Flatten(from) for every from", acc, shapeTier(1, 3, 3, 1, 3, 3, 2, nil)),
+			h("squeeze", "Squeeze(dim) for every size-1 dim", acc, shapeTier(1, 3, 3, 1, 3, 3, 2, nil)),
+			h("unsqueeze", "UnSqueeze(dim) for every dim 0..rank", acc, shapeTier(0, 3, 3, 0, 3, 3, 2, nil)),
+			h("broadcast", "Broadcast to every valid target (new leading dims, size-1 expansion, both)", acc, func(tier string) []Item {
+				if tier == "thorough" {
+					return mergeItems(rankItems(0, 3, 3, map[string]int64{"maxrank2": 3}), rankItems(0, 4, 2, map[string]int64{"maxrank2": 4}))
+				}
+				return rankItems(0, 2, 3, map[string]int64{"maxrank2": 3})
+			}),
+			h("construct", "Full/Zeros/Ones/TensorOf hold exactly the requested values", []string{"done"}, shapeTier(0, 3, 3, 0, 4, 3, 0, nil)),
+			h("eye", "Eye(n) is the identity matrix", []string{"done"}, func(string) []Item { return items(map[string]int64{"maxn": 5}) }),
 		},
-		Assumptions: []string{"element values are opaque solver reals; the assertions are term identities, hence value-independent"},
-		Outside:     "ranks 5-6, dimension sizes above the stated maxdim",
+		Assumptions: []string{"element values are opaque solver reals; the assertions are term identities, hence value-independent",
+			"arguments are assumed valid per DESIGN Appendix A (rejection of invalid arguments is C09)"},
+		Outside: "ranks 5-6 (rank 4 only with sizes <= 2), dimension sizes above 3, Concat of more than 3 operands",
 	})
 }
